@@ -23,6 +23,19 @@ using It = Q::Iterator;
 #ifndef VF_NR
 #define VF_NR 4
 #endif
+// producer-side and consumer-side wait/wake modes may differ (documented pairing rules)
+#ifndef VF_PFW
+#define VF_PFW VF_FW
+#endif
+#ifndef VF_PFK
+#define VF_PFK VF_FK
+#endif
+#ifndef VF_CFW
+#define VF_CFW VF_FW
+#endif
+#ifndef VF_CFK
+#define VF_CFK VF_FK
+#endif
 #define VF_MAXT VF_NT
 #define VF_MAXR VF_NR
 Q* q;
@@ -34,18 +47,18 @@ static inline void rec(int t, const P2& x) { vf_check(x.b == ~x.a, 2); if (ngot[
 static inline void recp(int t, uint64_t v) { if (npushed[t] < VF_MAXR) pv[t][npushed[t]] = v; npushed[t]++; }
 // value pushed by thread t as its k-th element
 #define VAL(t, k) ((uint64_t)((t + 1) * 16 + (k)))
-#define PUSH(k) do { recp(T, VAL(T, k)); q->push<VF_C, VF_FW, VF_FK>(mk(VAL(T, k))); } while (0)
-#define PUSHCB(k) do { recp(T, VAL(T, k)); q->push<VF_C, VF_FW, VF_FK>([&](P2& s) { s.a = VAL(T, k); s.b = ~VAL(T, k); }); } while (0)
-#define POP() do { P2 x{0, 0}; q->pop<VF_C, VF_FW, VF_FK>(x); rec(T, x); } while (0)
-#define POPCB() do { q->pop<VF_C, VF_FW, VF_FK>([&](P2& s) { rec(T, s); s.a = 0; s.b = 0; }); } while (0)
-#define TRYPUSH(k) do { if (q->try_push<VF_C, VF_FK>(mk(VAL(T, k)))) recp(T, VAL(T, k)); } while (0)
-#define TRYPOP() do { P2 x{0, 0}; if (q->try_pop<VF_C, VF_FK>(x)) rec(T, x); } while (0)
-#define MUST_TRYPUSH(k) do { bool ok = q->try_push<VF_C, VF_FK>(mk(VAL(T, k))); vf_check(ok, 5); if (ok) recp(T, VAL(T, k)); } while (0)
-#define MUST_TRYPOP() do { P2 x{0, 0}; bool ok = q->try_pop<VF_C, VF_FK>(x); vf_check(ok, 6); if (ok) rec(T, x); } while (0)
-#define PUSHN(k0, n) do { P2 tmp[n]; for (int i = 0; i < n; ++i) { tmp[i] = mk(VAL(T, k0 + i)); recp(T, VAL(T, k0 + i)); } q->push_n<VF_C, VF_FW, VF_FK>(tmp, tmp + n); } while (0)
-#define POPN(n) do { P2 tmp[n]; for (int i = 0; i < n; ++i) tmp[i] = P2{0, 0}; q->pop_n<VF_C, VF_FW, VF_FK>(tmp, tmp + n); for (int i = 0; i < n; ++i) rec(T, tmp[i]); } while (0)
-#define TRYPOPN(n) do { q->try_pop_n<VF_C, VF_FK>([&](It b, It e) { for (; b != e; ++b) rec(T, *b); }, n); } while (0)
-#define TRYPUSHN(k0, n) do { int kk = k0; q->try_push_n<VF_C, VF_FK>([&](It b, It e) { for (; b != e; ++b) { *b = mk(VAL(T, kk)); recp(T, VAL(T, kk)); ++kk; } }, n); } while (0)
+#define PUSH(k) do { recp(T, VAL(T, k)); q->push<VF_C, VF_PFW, VF_PFK>(mk(VAL(T, k))); } while (0)
+#define PUSHCB(k) do { recp(T, VAL(T, k)); q->push<VF_C, VF_PFW, VF_PFK>([&](P2& s) { s.a = VAL(T, k); s.b = ~VAL(T, k); }); } while (0)
+#define POP() do { P2 x{0, 0}; q->pop<VF_C, VF_CFW, VF_CFK>(x); rec(T, x); } while (0)
+#define POPCB() do { q->pop<VF_C, VF_CFW, VF_CFK>([&](P2& s) { rec(T, s); s.a = 0; s.b = 0; }); } while (0)
+#define TRYPUSH(k) do { if (q->try_push<VF_C, VF_PFK>(mk(VAL(T, k)))) recp(T, VAL(T, k)); } while (0)
+#define TRYPOP() do { P2 x{0, 0}; if (q->try_pop<VF_C, VF_CFK>(x)) rec(T, x); } while (0)
+#define MUST_TRYPUSH(k) do { bool ok = q->try_push<VF_C, VF_PFK>(mk(VAL(T, k))); vf_check(ok, 5); if (ok) recp(T, VAL(T, k)); } while (0)
+#define MUST_TRYPOP() do { P2 x{0, 0}; bool ok = q->try_pop<VF_C, VF_CFK>(x); vf_check(ok, 6); if (ok) rec(T, x); } while (0)
+#define PUSHN(k0, n) do { P2 tmp[n]; for (int i = 0; i < n; ++i) { tmp[i] = mk(VAL(T, k0 + i)); recp(T, VAL(T, k0 + i)); } q->push_n<VF_C, VF_PFW, VF_PFK>(tmp, tmp + n); } while (0)
+#define POPN(n) do { P2 tmp[n]; for (int i = 0; i < n; ++i) tmp[i] = P2{0, 0}; q->pop_n<VF_C, VF_CFW, VF_CFK>(tmp, tmp + n); for (int i = 0; i < n; ++i) rec(T, tmp[i]); } while (0)
+#define TRYPOPN(n) do { q->try_pop_n<VF_C, VF_CFK>([&](It b, It e) { for (; b != e; ++b) rec(T, *b); }, n); } while (0)
+#define TRYPUSHN(k0, n) do { int kk = k0; q->try_push_n<VF_C, VF_PFK>([&](It b, It e) { for (; b != e; ++b) { *b = mk(VAL(T, kk)); recp(T, VAL(T, kk)); ++kk; } }, n); } while (0)
 // release/acquire hand-over between harness threads (the acquire side only explores executions where it saw the flag)
 #define SIGNAL(i) __atomic_store_n(&flag[i], 1, __ATOMIC_RELEASE)
 #define AWAIT(i) vf_assume(__atomic_load_n(&flag[i], __ATOMIC_ACQUIRE) == 1)
